@@ -21,7 +21,7 @@ func init() {
 		Decides: "from the check-only entry point no function that issues a state-changing request or writes a layout is reachable in the reference graph once call sites behind the 'action is not check' edge are removed, and the action value is passed unchanged down the chain; " +
 			"every allow/deny expression is compiled from one filter at a time into a pattern that, instantiated and parsed with regexp/syntax, is anchored at both ends in every alternative; both lists are consulted; " +
 			"the backup copy takes the target as its source, sits behind the backup-configured test and every path from that test to the overwriting copy passes it; " +
-			"every entry stored in a process-wide cache of the sync tool is keyed by a value computed from every by-value parameter the cached value is computed from (the platform digest cache cannot answer for another platform).",
+			"every entry stored in a process-wide cache of the sync tool is keyed by a value computed from every by-value parameter the cached value is computed from (the platform digest cache cannot answer for another platform); the in-place filter is only given listings nobody else holds; the catalog pager decides its end and its marker from the raw page.",
 		NotCovered: "the full before/after comparison of registries, platform resolution itself, tag movement between runs, template expansion.",
 		Run:        runC18,
 	})
